@@ -7,7 +7,9 @@ import verus_unit as VU
 import extract as X
 
 CACHE = os.path.join(VERIF, ".cache")
-GEN = os.path.join(VERIF, "gen")
+# runs against a scratch copy of the sources (VERIF_REPO, used by bin/seedrun --scratch) generate into a directory of their own, so that
+# they can run next to a check of /repo itself
+GEN = os.path.join(VERIF, "gen") if os.environ.get("VERIF_REPO", "/repo") == "/repo" else os.path.join(VERIF, "gen-" + __import__("hashlib").sha256(os.environ["VERIF_REPO"].encode()).hexdigest()[:8])
 # VERIF_EVIDENCE_DIR: development runs against a seeded change (bin/seedrun) write their evidence elsewhere, so that the committed
 # evidence files are always the record of a run on the unchanged tree
 EVID = os.environ.get("VERIF_EVIDENCE_DIR") or os.path.join(VERIF, "evidence")
@@ -57,6 +59,7 @@ def run_verus_unit(unit, tier, use_cache=True):
            "cmd": "", "wall_s": 0.0, "solver_s": 0.0, "canaries": {}}
     try:
         meta = VU.build(unit, repo=repo_root())
+        os.makedirs(GEN, exist_ok=True)
         gen_path = os.path.join(GEN, unit + ".rs")
         VU.emit(meta, gen_path)
     except (X.ExtractError, VU.specfile.SpecError, FileNotFoundError, StopIteration, ValueError) as ex:
